@@ -266,6 +266,21 @@ def run_case(case, rec):
                 rec.count('refused')
                 return
             obj = c.value
+            deleted = None
+            if case['ch'] % 5 == 1:
+                # an object with an integer / bit attribute never assigned
+                # (deleted): the library encodes it as 0 - and must leave
+                # the attribute absent, as it found it
+                for a_, t_, _d in spec.args:
+                    if t_ in ('bit', 'octet', 'short', 'long', 'longlong') \
+                            and gf.constraint_of(spec, a_)[0] is None:
+                        try:
+                            delattr(obj, a_)
+                            deleted = a_
+                            rec.count('objects_with_unassigned_attribute')
+                        except Exception:
+                            pass
+                        break
             r = _encode_twice(lambda o: frame.marshal(o, case['ch']),
                               lambda: obj, rec, case, 'method')
             if r is None:
@@ -278,6 +293,8 @@ def run_case(case, rec):
             rnd = random.Random(case['ch'])
             c2 = call(cls, **permute_deep(copy.deepcopy(case['vals']), rnd))
             if c2.ok:
+                if deleted is not None:
+                    delattr(c2.value, deleted)
                 m2 = common.lib_marshal(c2.value, case['ch'])
                 if not m2.ok or m2.value != r:
                     rec.violation('order-dependent:method',
